@@ -66,7 +66,7 @@ class Subscriptions(FileWriteable):
 
     def read(self, fp: IO[str]) -> None:
         for line in fp:
-            self.add(line.rstrip())
+            self.add(line.rstrip('\r\n'))
 
     def write(self, fp: IO[str]) -> None:
         for sub in self._subscribed:
